@@ -90,11 +90,11 @@ def _create_h2(data, meta) -> Histogram2D:
 
     shape = Histogram2D(binnings).shape
 
-    # TODO: Are the shapes in correct order?
-    frequencies = data[:, 1].reshape([b + 2 for b in shape])
+    # The rows iterate over the x bins fastest (incl. under/overflow bins on both axes)
+    frequencies = data[:, 1].reshape([b + 2 for b in reversed(shape)]).T
     frequencies = frequencies[1:-1, 1:-1]
 
-    errors2 = data[:, 2].reshape([b + 2 for b in shape])
+    errors2 = data[:, 2].reshape([b + 2 for b in reversed(shape)]).T
     errors2 = errors2[1:-1, 1:-1]
 
     hist = Histogram2D(
